@@ -258,9 +258,13 @@ def _sweep_work(args):
     drv = DRIVERS[dname]
     idnt, _ = hist.build(drv, h)
     res = []
+    done = []
     for rop in rops:
         obs = drv.apply(idnt, rop)
-        hops = [drv.ops[i] for i in h] + [rop]
+        # the object is reused for the whole job: the witness carries every
+        # rating issued on it so far (self-contained for replay)
+        done.append(rop)
+        hops = [drv.ops[i] for i in h] + list(done)
         vs = check_rating(idnt, rop, obs, drv.case(hops), site="sweep")
         # repeated call: identical value
         obs2 = drv.apply(idnt, rop)
@@ -270,6 +274,7 @@ def _sweep_work(args):
                             witness=json.dumps(rop)[:80],
                             detail=f"{obs['ret']} then {obs2['ret']}",
                             case=drv.case(hops + [rop]), kind="hist"))
+        done.append(rop)
         res.append((rop, obs["ret"] if obs["ok"] else obs["exc"], vs))
     return dname, h, res
 
